@@ -202,6 +202,35 @@ def same_pattern_case(args):
         sc.close()
 
 
+def missing_value_case(args):
+    """an empty value arrives on a parameter port that the command's {p:...} placeholder names (between ordinary values, first,
+    last or alone): the workflow stops with a failure; no command with an empty placeholder is executed, and the program does
+    not report success"""
+    seed, i = args
+    from tools import t3
+    rng = random.Random(seed * 982451653 + i)
+    sp = t3.Spec(maxtasks=rng.randint(1, 3), bufsize=rng.choice([1, 128]))
+    n = rng.randint(0, 3)
+    vals = ["v%d" % j for j in range(n)]
+    pos = rng.randint(0, n)
+    vals.insert(pos, "")
+    sp.proc(t3.RawProc("greet", "echo hello {p:name} > {o:out}", ins=[], pars=[("name", ("V", vals))], outs=[("out", "greet_{p:name}.txt")]))
+    sc = t3.Scratch()
+    try:
+        sc.plant(sp.files)
+        impl = t3.run_impl(sc, sp, timeout=60)
+        problems = []
+        files = t3.data_files(impl["fs"])
+        if impl["rc"] == 0:
+            problems.append("the parameter port `name` received the values %r: the value at position %d is missing (empty), yet the program exits 0; files made: %s" % (
+                vals, pos, sorted(files)[:4]))
+        if "greet_.txt" in files or any(v == "hello \n" or v == "hello\n" for v in files.values()):
+            problems.append("a command with an empty {p:name} was executed: %s" % sorted(files)[:4])
+        return {"problems": problems, "spec": sp.text(), "bufsize": sp.bufsize, "rc": impl["rc"], "stderr": impl["stderr"][-200:]}
+    finally:
+        sc.close()
+
+
 def run(rep, tier, seed):
     proved = vlib.prove(rep, MODULE, THEOREMS)
     ok, msg = vlib.build_ocaml()
@@ -241,6 +270,17 @@ def run(rep, tier, seed):
                 found = True
                 break
         dist["same_pattern_workflows"] = 3 if tier == "quick" else 30
+    # (1a') T3: a missing (empty) parameter value stops the workflow
+    if not found:
+        from tools import t3 as _t3
+        nm = 6 if tier == "quick" else 60
+        for r in _t3.run_many(missing_value_case, [(seed, k) for k in range(nm)], workers=3):
+            total += 1
+            if r["problems"]:
+                rep.violation(r["problems"][0], {"kind": "missing-value-not-fatal", "spec": r["spec"], "bufsize": r["bufsize"]})
+                found = True
+                break
+        dist["missing_value_workflows"] = nm
     # (1b) joined in-ports: the placeholder expands to the members in the order they arrived, separated by SEP, each
     # resolvable from the temp dir ("../" in front of relative paths)
     if not found:
